@@ -83,12 +83,12 @@ flight asks the question the flight resolves. -/
 theorem singleflight_one_resolution (cs : List Client) (as : List Act) :
     let s := run codeCfg (init cs) as
     s.calls.length = s.flights.length ∧
-    (∀ i j f g fi fj, (s.pcs[i]? = some (.waiting f) ∨ s.pcs[i]? = some (.leading f)) →
-        (s.pcs[j]? = some (.waiting g) ∨ s.pcs[j]? = some (.leading g)) →
+    (∀ (i j f g : Nat) (fi fj : Flight), (s.pcs[i]? = some (Pc.waiting f) ∨ s.pcs[i]? = some (Pc.leading f)) →
+        (s.pcs[j]? = some (Pc.waiting g) ∨ s.pcs[j]? = some (Pc.leading g)) →
         s.flights[f]? = some fi → s.flights[g]? = some fj → fi.result = none → fj.result = none →
         fi.key = fj.key → f = g) ∧
-    (∀ i f, (s.pcs[i]? = some (.waiting f) ∨ s.pcs[i]? = some (.leading f)) →
-        ∃ c fl, s.clients[i]? = some c ∧ s.flights[f]? = some fl ∧ fl.key = c.key) := by
+    (∀ (i f : Nat), (s.pcs[i]? = some (Pc.waiting f) ∨ s.pcs[i]? = some (Pc.leading f)) →
+        ∃ (c : Client) (fl : Flight), s.clients[i]? = some c ∧ s.flights[f]? = some fl ∧ fl.key = c.key) := by
   intro s
   have hinv : Inv s := inv_run codeCfg rfl as _ (inv_init cs)
   refine ⟨hinv.callsLen, ?_, hinv.attached⟩
@@ -110,11 +110,13 @@ can return; when it does it is done and has exactly one outcome, which is an err
 flight's resolution failed; and no client ever has two outcomes. -/
 theorem singleflight_result_reaches_every_waiter (cs : List Client) (as : List Act) :
     let s := run codeCfg (init cs) as
-    (∀ i f fl r, s.pcs[i]? = some (.waiting f) → s.flights[f]? = some fl → fl.result = some r →
-        let s' := step codeCfg s (.wake i)
-        s'.pcs[i]? = some .done ∧ (∃ o, (i, o) ∈ s'.outs ∧ ((∃ e, o = .error e) → ∃ e, r = .err e))) ∧
+    (∀ (i f : Nat) (fl : Flight) (r : DRes), s.pcs[i]? = some (Pc.waiting f) → s.flights[f]? = some fl →
+        fl.result = some r →
+        let s' := step codeCfg s (Act.wake i)
+        s'.pcs[i]? = some Pc.done ∧
+          (∃ o : Outcome, (i, o) ∈ s'.outs ∧ ((∃ e, o = Outcome.error e) → ∃ e, r = DRes.err e))) ∧
     (s.outs.map (·.1)).Nodup ∧
-    (∀ i, s.pcs[i]? = some .done ↔ ∃ o, (i, o) ∈ s.outs) := by
+    (∀ i : Nat, s.pcs[i]? = some Pc.done ↔ ∃ o : Outcome, (i, o) ∈ s.outs) := by
   intro s
   have hinv : Inv s := inv_run codeCfg rfl as _ (inv_init cs)
   refine ⟨?_, hinv.outsNodup, fun i => ⟨hinv.doneOuts i, fun ⟨o, ho⟩ => hinv.outsDone i o ho⟩⟩
